@@ -1,14 +1,14 @@
 package main
 
 import (
-	"runtime/debug"
-	"runtime/pprof"
 	"encoding/json"
 	"flag"
 	"fmt"
 	"io"
 	"os"
 	"path/filepath"
+	"runtime/debug"
+	"runtime/pprof"
 	"sort"
 	"strings"
 	"time"
@@ -19,37 +19,38 @@ import (
 )
 
 type RunResult struct {
-	Harness      string         `json:"harness"`
-	Pkg          string         `json:"pkg"`
-	Status       string         `json:"status"` // ok | violations | incomplete | abort
-	Violations   []*Violation   `json:"violations"`
-	Reached      map[string]int `json:"reached"`
-	ExpectReach  []string       `json:"expect_reach"`
-	MissingReach []string       `json:"missing_reach"`
-	EndWitness   *Sample        `json:"end_witness"`
-	Samples      []Sample       `json:"samples"`
-	Funcs        []string       `json:"functions_encoded"`
-	Incomplete   []string       `json:"incomplete"`
-	Aborts       []string       `json:"aborts"`
-	Paths        int            `json:"paths"`
-	PathEnds     map[string]int `json:"path_ends"`
-	Steps        int64          `json:"ssa_steps"`
-	Queries      int            `json:"queries"`
-	QSat         int            `json:"queries_sat"`
-	QUnsat       int            `json:"queries_unsat"`
-	QUnknown     int            `json:"queries_unknown"`
-	Obligations  int            `json:"obligations_discharged_unsat"`
-	SolverS      float64        `json:"solver_s"`
-	WallS        float64        `json:"wall_s"`
-	LoadS        float64        `json:"load_s"`
-	MaxUnwind    int            `json:"unwind_max_seen"`
-	Bounds       map[string]int `json:"bounds"`
-	Stubs        []string       `json:"stubs_used"`
-	SharedWrites map[string]int `json:"shared_writes"`
-	Solver       string         `json:"solver"`
-	Cuts         []string       `json:"cuts"`
-	Decisions    int            `json:"symbolic_decisions"`
-	Params       map[string]int `json:"params"`
+	Harness            string                 `json:"harness"`
+	Pkg                string                 `json:"pkg"`
+	Status             string                 `json:"status"` // ok | violations | incomplete | abort
+	Violations         []*Violation           `json:"violations"`
+	Reached            map[string]int         `json:"reached"`
+	ExpectReach        []string               `json:"expect_reach"`
+	MissingReach       []string               `json:"missing_reach"`
+	EndWitness         *Sample                `json:"end_witness"`
+	Samples            []Sample               `json:"samples"`
+	Funcs              []string               `json:"functions_encoded"`
+	Incomplete         []string               `json:"incomplete"`
+	Aborts             []string               `json:"aborts"`
+	Paths              int                    `json:"paths"`
+	PathEnds           map[string]int         `json:"path_ends"`
+	Steps              int64                  `json:"ssa_steps"`
+	Queries            int                    `json:"queries"`
+	QSat               int                    `json:"queries_sat"`
+	QUnsat             int                    `json:"queries_unsat"`
+	QUnknown           int                    `json:"queries_unknown"`
+	Obligations        int                    `json:"obligations_discharged_unsat"`
+	SolverS            float64                `json:"solver_s"`
+	WallS              float64                `json:"wall_s"`
+	LoadS              float64                `json:"load_s"`
+	MaxUnwind          int                    `json:"unwind_max_seen"`
+	Bounds             map[string]int         `json:"bounds"`
+	Stubs              []string               `json:"stubs_used"`
+	SharedWrites       map[string]int         `json:"shared_writes"`
+	SharedWriteSamples map[string][]NondetVal `json:"shared_write_samples,omitempty"`
+	Solver             string                 `json:"solver"`
+	Cuts               []string               `json:"cuts"`
+	Decisions          int                    `json:"symbolic_decisions"`
+	Params             map[string]int         `json:"params"`
 }
 
 func solverLogWriter(cfg *Config, id int) io.Writer {
@@ -187,7 +188,7 @@ func main() {
 		Queries: ex.queries, QSat: ex.nsat, QUnsat: ex.nunsat, QUnknown: ex.unknowns, Obligations: ex.decided,
 		SolverS: ex.solverTime.Seconds(), WallS: time.Since(t0).Seconds(), LoadS: loadS, MaxUnwind: ex.maxUnwind,
 		Bounds:       map[string]int{"unwind": cfg.Unwind, "max_steps": cfg.MaxSteps, "max_paths": cfg.MaxPaths, "alloc_cap": int(cfg.AllocCap), "query_timeout_ms": cfg.TimeoutMs},
-		SharedWrites: ex.shared, Solver: *solver}
+		SharedWrites: ex.shared, SharedWriteSamples: ex.sharedSamples, Solver: *solver}
 	for f := range ex.funcs {
 		res.Funcs = append(res.Funcs, f)
 	}
